@@ -7,6 +7,18 @@ CLAIMED = {
    text="Every function of the framing code (ReadN/WriteN, fixed-width readers/writers, Header.Read/Write, Message.Read/Write) is verified against a contract stating the documented byte layout, exact consumption for every fragmentation allowed by the io.Reader contract, refusal of invalid headers before any payload byte, plus round-trip/injectivity lemmas; all obligations are discharged for symbolic inputs (no bound).",
    note="Assumed: io.Reader/io.Writer stream contracts, bytes.Buffer, encoding/binary byte-order helpers, fmt.Errorf (trusted/*.spec); bus/net.readError contract assumed (only on an error path); integers mathematical with explicit wrap; a Read returning (0,nil) forever is outside 'faultfree'.",
    technique="contract-based deductive verification: VC generation over go/ssa, SMT (z3/cvc5)", ref="7 C01"),
+ "C02": dict(level="proof",
+   text="Contracts on the dynamic-value code: every Value.Write implementer is verified to emit 'signature string then documented body' (per-kind layout clauses); every new* decoder and NewValue (including its signature dispatch table, one clause group per kind) is verified to consume exactly the encoding and to rebuild the value from those bytes; every TypeReader implementer (const, string, value, var, tuple) is verified against the interface contract 'returns exactly the bytes consumed'; newOpaque/OpaqueValue.Write store and re-emit exactly those bytes. Recursion (lists, nested values) is handled by modular use of the functions' own contracts.",
+   note="Not proved: a recursive spec of list *contents* (count, bound, exact accounting and per-element use of NewValue are proved; element-wise equality follows from the recursive contracts but is not stated as one closed formula). signature.MakeReader (goparsec parser) is an assumed contract. Implementer preconditions (non-nil component readers/elements) are assumptions listed in the evidence. newOpaque maps signature 'o' to the long object-reference signature by design (clause scoped to sig != \"o\").",
+   technique="contract-based deductive verification: VC generation over go/ssa, SMT (z3/cvc5)", ref="7 C02"),
+ "C07": dict(level="proof",
+   text="For the decoders under contract (ReadN, fixed-width readers, ReadString, Header/Message.Read, all dynamic-value decoders, all TypeReaders) with NO precondition on the bytes: every index/slice/nil/make/type-assertion/division obligation of the safety sweep, every data-dependent allocation bounded by a named limit (alloc#n), every loop with a decreases clause, and loops whose trip count comes from the wire must make progress (progress#n).",
+   note="Covered entry points: message, basic, dynamic values, signature-driven readers. NOT yet covered (not under contract in this phase, listed so nothing is over-claimed): generated meta-object/object-reference/service-info decoders, capability map, reflection decoder, stub argument decoders; signature.Parse and the IDL parser (goparsec) are outside the verifier's reach. Memory/time 'modest multiple' is covered only through alloc bounds + progress, not a quantitative meter.",
+   technique="contract-based deductive verification: zero-precondition safety sweep + alloc/progress obligations, SMT", ref="7 C07"),
+ "C08": dict(level="proof",
+   text="Sticky-failure ghost r.short: ReadN sets it exactly when it fails and fails whenever fewer than length bytes remain; every decoder under contract is verified to return an error whenever r.short became true during the call (no swallowed error) and, for fixed-width decoders, whenever fewer bytes than needed remain.",
+   note="From obligations to the statement uses the paper lemma 'a decoder run is a function of the bytes it consumed' (DESIGN.md §7 C08). Decoders covered: message, basic, dynamic values, TypeReaders; generated meta-object/service-info decoders, capability map and the reflection decoder are not yet under contract.",
+   technique="contract-based deductive verification: ghost-state postconditions on every decoder, SMT", ref="7 C08"),
 }
 
 NOT_APPLICABLE = {
